@@ -383,3 +383,31 @@ Proof.
   destruct (eval_pair d init_state p e) as [[c s]|] eqn:E; cbn [bind]; [|discriminate].
   apply run_loop_sound. eapply eval_pair_balanced; [exact E|reflexivity].
 Qed.
+
+(* ------------------------------------------------------------------ corollaries (C02) *)
+Lemma run_program_upward d (Hop : dop_budget d) fuel p e M1 M2 r :
+  eff M1 <= eff M2 -> run_program d fuel p e M1 = Ok r -> run_program d fuel p e M2 = Ok r.
+Proof.
+  intros H H1. pose proof (run_program_sim d Hop fuel p e M1 M2 H) as S. rewrite H1 in S.
+  destruct (run_program d fuel p e M2); cbn in S; [subst; reflexivity|contradiction].
+Qed.
+
+Lemma run_program_fail_kind d (Hop : dop_budget d) fuel p e M1 M2 r :
+  eff M1 <= eff M2 -> run_program d fuel p e M2 = Ok r ->
+  run_program d fuel p e M1 = Ok r \/ run_program d fuel p e M1 = Err CostExceeded.
+Proof.
+  intros H H2. pose proof (run_program_sim d Hop fuel p e M1 M2 H) as S. rewrite H2 in S.
+  destruct (run_program d fuel p e M1); cbn in S; [left; subst; reflexivity|right; subst; reflexivity].
+Qed.
+
+Lemma run_program_same d (Hop : dop_budget d) fuel p e M1 M2 r1 r2 :
+  run_program d fuel p e M1 = Ok r1 -> run_program d fuel p e M2 = Ok r2 -> r1 = r2.
+Proof.
+  intros H1 H2. destruct (N.le_ge_cases (eff M1) (eff M2)) as [H|H].
+  - pose proof (run_program_upward d Hop fuel p e M1 M2 r1 H H1). congruence.
+  - pose proof (run_program_upward d Hop fuel p e M2 M1 r2 H H2). congruence.
+Qed.
+
+Lemma run_program_zero d fuel p e :
+  run_program d fuel p e 0 = run_program d fuel p e COST_MAX.
+Proof. reflexivity. Qed.
